@@ -8,7 +8,8 @@ MODEL_FILES = 'Heap.v (allocator, liveness, ownership, error outcomes), CoreDefs
 RULE = ('the C06 histories with the ownership features weighted up: reference nodes (string/object/array references, AddItemReference*), constant keys, items moved between '
         'containers, SetValuestring in place / reallocating / on its own value, duplicates, bulk constructors, and key arguments that are pointers into existing items — in '
         'particular cJSON_AddItemToObject(o, item->string, item) and cJSON_ReplaceItemInObject(o, repl->string, repl); print calls (all variants, text released with cJSON_free) '
-        'interleaved, and a family printing > 256 bytes with the k-th request of the print call failing (custom hooks: manual buffer growth); every history ends by deleting all remaining roots; '
+        'interleaved, and a family printing > 256 bytes with the k-th request of the print call failing (custom hooks: manual buffer growth); directed histories through calls outside the heap model, judged by the verdict alone: every print entry point on a NULL item '
+        '(a print that fails for a reason other than the allocator) and JSON Patch add / replace / move / copy onto the WHOLE document with a value that carries a constant key; every history ends by deleting all remaining roots; '
         'implementation under ASan + tracking allocator + canaries around caller strings; observables: ledger after every call and at the end, double / foreign release, '
         'canaries; verdict: ledger equals the list model after every call, zero after the final deletes, no allocator complaint, no sanitizer report')
 ASSUMPTIONS = ['histories respect the documented ownership rules (a referenced tree outlives its references; constant keys and referenced strings outlive the items)',
@@ -34,10 +35,25 @@ def aliasing_cases():
     res += coregen.setbool_cases()
     return res
 
+def borrowed_elsewhere_cases():
+    """directed histories through the calls OUTSIDE the heap model (judged by the verdict: ledger, foreign releases):
+    printing that fails for a reason other than the allocator (no item), with every print entry point, and a JSON Patch that
+    replaces the WHOLE document by a value that carries a constant key (cJSON_Duplicate shares constant keys)"""
+    hx = lambda b: b.hex()
+    out = ['obj;astr:0:x6b:x76;printbuf:-:10:1;printbuf:-:10:0;printbuf:-:0:1;printbuf:-:300:0;print:-:1;print:-:0;printpre:-:50:1;size:0']
+    for cs in ('', 'cs'):
+        for opname in (b'add', b'replace'):
+            out.append(';'.join(['parse:' + hx(b'{"a":1}'), 'arr', 'obj', 'astr:2:x6f70:x' + hx(opname), 'astr:2:x70617468:x', 'str:x76',
+                                 'addcs:2:x76616c7565:5', 'add:1:2', 'applypatch%s:0:1' % cs, 'print:0:0', 'del:1']))
+        for opname in (b'move', b'copy'):
+            out.append(';'.join(['obj', 'str:x76', 'addcs:0:x6b6579:1', 'arr', 'obj', 'astr:3:x6f70:x' + hx(opname), 'astr:3:x66726f6d:x' + hx(b'/key'),
+                                 'astr:3:x70617468:x', 'add:2:3', 'applypatch%s:0:2' % cs, 'print:0:0', 'del:2']))
+    return [Case('hist XS 0 ' + o, {'tags': ['directed', 'borrowed-memory-outside-heap-model']}) for o in out]
+
 def generate(ctx):
     rng = random.Random(ctx['seed'] * 104729 + 7)
     quick = ctx['tier'] == 'quick'
-    cases = aliasing_cases() + coregen.print_failure_cases()
+    cases = aliasing_cases() + coregen.print_failure_cases() + borrowed_elsewhere_cases()
     # parsing inside histories: accepted texts join the pool and are deleted at the end; rejected ones (malformed, or a complete value
     # followed by a trailer when termination is required) must leave the ledger exactly as it was
     texts = [b'{"name":"x","list":[1,2,3]}', b'[[],{},"s",null,true,1.5]', b'"just a string"', b'{"a":{"b":{"c":[1,{"d":"e"}]}}}', b'[1,2', b'{"a":1,', b'{"k":"v"} trailer',
